@@ -102,6 +102,18 @@ Fixpoint reports_ops_from (b : backend) (hw : Z) (w : world) (ops : list op) : l
 Definition reports_ops (b : backend) (hw : Z) (ops : list op) : list Z := reports_ops_from b hw w0 ops.
 Definition inits_of (ops : list op) : list Z := flat_map (fun o => match o with OInit n => [n] | OUse => [] end) ops.
 
+(* ---- OpenMP: the limit is PER-THREAD state.  omp_set_num_threads(n) sets the nthreads-var ICV of the CALLING thread
+   only; a parallel region forks a team of the size of the ENCOUNTERING thread's ICV (default: hw).  [w_omp] above is the
+   ICV of the thread that calls initTaskingSystem / numTaskingThreads; the map makes the other threads explicit. *)
+Definition icv_map := list (N * Z).                     (* thread id -> value set on that thread, most recent first *)
+Fixpoint icv_get (hw : Z) (m : icv_map) (t : N) : Z :=
+  match m with [] => hw | (u, v) :: r => if N.eqb u t then v else icv_get hw r t end.
+(* initTaskingSystem(n) called by thread t (OpenMP branch of the handle constructor) *)
+Definition omp_init (m : icv_map) (t : N) (n : Z) : icv_map := if 0 <? n then (t, n) :: m else m.
+Definition omp_inits (t : N) (ns : list Z) : icv_map := fold_left (fun m n => omp_init m t n) ns [].
+(* size of the team a parallel_for issued by thread t forks = number of threads that can be inside its body at once *)
+Definition omp_loop_team (hw : Z) (m : icv_map) (t : N) : Z := icv_get hw m t.
+
 (* threads that may execute parallel_for bodies on the internal backend: the workers and the caller *)
 Definition internal_body_threads (w : world) : Z := w_workers w + 1.
 
